@@ -60,7 +60,11 @@ Inductive op :=
                                      drops before they are delivered, or the RECONCILE call failed) *)
 | OCrashLost (p : point) (k : N)  (* OCrash p k whose reconciliation is lost, then the automatic
                                      re-subscription: = OCrash p k; OLoseAnswers; OReconnect *)
-| OReconnectLost.                 (* = OReconnect; OLoseAnswers; OReconnect *)
+| OReconnectLost                  (* = OReconnect; OLoseAnswers; OReconnect *)
+| OReconnectOmit (om : N)         (* a reconnection whose answers lack optional fields (bits of om:
+                                     1 executor_id, 2 agent_id, 4 source): as a step it is OReconnect,
+                                     its answers are processed by [OAnswerBare om] *)
+| OAnswerBare (om : N).           (* one reconciliation answer that lacks the fields om is processed *)
 
 Inductive call :=
 | CSubscribe (carried : bool) (id : N)
@@ -98,6 +102,10 @@ Definition master_state (ts : list N) (s : N) (m : list mtask) : list mtask :=
 
 Definition alive_at (t : N) (m : list mtask) : bool :=
   existsb (fun x => N.eqb (mt_id x) t && mt_alive x) m.
+
+(* the task loses its lock (Task.isLocked needs a non-empty executor id and agent id) *)
+Definition roster_unlock (ts : list N) (ros : list rtask) : list rtask :=
+  map (fun r => if memN (rt_id r) ts then mkR (rt_id r) None (rt_active r) else r) ros.
 
 Definition set_master_roster (w : world) (m : list mtask) (ros : list rtask) : world :=
   mkW (w_failover w) (w_store w) (w_nextfw w) m (w_mem w) ros (w_envs w)
@@ -190,7 +198,13 @@ Definition create_held (w : world) (k s : N) : world * list call :=
 (* ---------- one reconciliation answer (handleMessage, REASON_RECONCILIATION) ----------
    KILL, or else the ordinary path of a status update (updateTaskStatus): a roster task the
    master reports in an activating state (TASK_RUNNING) becomes ACTIVE, whatever it was *)
-Definition answer (w : world) : world * list call :=
+(* updateTaskStatus refreshes the agent id / executor id of the roster task from an activating
+   status; with the refresh guarded by "the status carries the field" (status_refresh_guarded,
+   regenerated) an answer without them changes nothing, otherwise it blanks them: lock lost *)
+Definition refreshed (om : N) (t : N) (ros : list rtask) : list rtask :=
+  if negb status_refresh_guarded && negb (N.eqb (N.land om 3) 0) then roster_unlock [t] ros else ros.
+
+Definition answer_with (w : world) (om : N) : world * list call :=
   match w_pending w with
   | [] => (w, [])
   | (t, s) :: rest =>
@@ -200,9 +214,11 @@ Definition answer (w : world) : world * list call :=
        [CKill t])
     else
       (mkW (w_failover w) (w_store w) (w_nextfw w) (w_master w) (w_mem w)
-           (if memN s status_activating then roster_activate [t] (w_roster w) else w_roster w)
+           (if memN s status_activating then refreshed om t (roster_activate [t] (w_roster w)) else w_roster w)
            (w_envs w) (w_ntask w) (w_nenv w) rest, [])
   end.
+
+Definition answer (w : world) : world * list call := answer_with w 0.
 
 (* ---------- crash: the objects of the life are gone, the id is reloaded from the store ---------- *)
 Definition crash (w : world) : world :=
@@ -274,6 +290,8 @@ Definition step (w : world) (o : op) : world * list call :=
   | OLoseAnswers => (set_w_pending w [], [])
   | OCrashLost p k => resubscribe_after_loss (crash_step w p k)
   | OReconnectLost => resubscribe_after_loss (subscribe w)
+  | OReconnectOmit _ => subscribe w
+  | OAnswerBare om => answer_with w om
   end.
 
 Fixpoint run (w : world) (ops : list op) : world * list call :=
@@ -288,9 +306,12 @@ Definition blank (fo : bool) : world := mkW fo None 1 [] 0 [] [] 0 0 [].
 Definition boot (fo : bool) : world := fst (subscribe (blank fo)).
 
 (* ---------- quiescent semantics used by the harness: an operation and all its answers ---------- *)
+Definition drain_op (o : op) : op :=
+  match o with OReconnectOmit om => OAnswerBare om | _ => OAnswer end.
+
 Definition hstep (w : world) (o : op) : world * list call :=
   let '(w1, c1) := step w o in
-  let '(w2, c2) := run w1 (repeat OAnswer (length (w_pending w1))) in
+  let '(w2, c2) := run w1 (repeat (drain_op o) (length (w_pending w1))) in
   (w2, c1 ++ c2).
 
 (* ---------- observations ---------- *)
@@ -373,6 +394,9 @@ Definition corr18 (c : c18_case) : bool :=
    4  a reconnection's reconciliation sent KILL to a task locked by an environment (the behaviour
       before the repair of C18-a: the KILL rule did not look the task up in the roster)
    6  the observation is malformed (not one record per operation)
+   7  a reconnection (its reconciliation answers, whatever fields they carry) left a roster task
+      that was locked by an environment in the roster but no longer locked
+   8  Cleanup (explicit or at the start of a CreateEnvironment) sent KILL to a task that was locked
    Clauses 1-3 are only demanded with failover enabled and while nobody tampered with the store. *)
 Definition is_tamper (o : op) : bool := match o with OStoreSet _ => true | _ => false end.
 
@@ -397,8 +421,13 @@ Definition mon_op (fo tampered : bool) (id0 : N) (o : op) (before after : obs) :
          if demanded && negb (forallb (fun t => roster_has t (o_roster after)) (o_alive after)) then 3
          else if existsb (fun t => roster_locked t (o_roster after)) (o_kills after) then 5
          else 0
-       | OReconnect | OReconnectLost =>
-         if existsb (fun t => roster_locked t (o_roster before)) (o_kills after) then 4 else 0
+       | OReconnect | OReconnectLost | OReconnectOmit _ =>
+         if existsb (fun t => roster_locked t (o_roster before)) (o_kills after) then 4
+         else if existsb (fun x => fst (snd x) && roster_has (fst x) (o_roster after)
+                                   && negb (roster_locked (fst x) (o_roster after))) (o_roster before) then 7
+         else 0
+       | OCleanup | OCreate _ =>
+         if existsb (fun t => roster_locked t (o_roster before)) (o_kills after) then 8 else 0
        | _ => 0
        end.
 
@@ -431,9 +460,13 @@ Definition mon18 (c : c18_case) : N :=
    4 the store was tampered with              5 failover disabled
    6 reconnection while a roster task locked by an environment is NOT active and alive at the
      master (launch window, TASK_LOST)
-   7 restart with live tasks at the master whose first reconciliation is lost *)
+   7 restart with live tasks at the master whose first reconciliation is lost
+   8 reconnection whose answers lack optional fields while a live task is locked by an environment *)
 Definition is_sub (o : op) : bool :=
-  match o with OReconnect | OCrash _ _ | OCrashLost _ _ | OReconnectLost => true | _ => false end.
+  match o with
+  | OReconnect | OCrash _ _ | OCrashLost _ _ | OReconnectLost | OReconnectOmit _ => true
+  | _ => false
+  end.
 
 Fixpoint tag_walk (ops : list op) (before : obs) (rest : list obs) : N :=
   match ops, rest with
@@ -445,6 +478,8 @@ Fixpoint tag_walk (ops : list op) (before : obs) (rest : list obs) : N :=
         | [], PIdle | [], PBeforeLaunch => 3
         | _, _ => 7
         end
+      | OReconnectOmit _ =>
+        if existsb (fun x => fst (snd x) && memN (fst x) (o_alive before)) (o_roster before) then 8 else 3
       | OReconnect | OReconnectLost =>
         if existsb (fun x => fst (snd x) && negb (snd (snd x)) && memN (fst x) (o_alive before)) (o_roster before) then 6
         else if existsb (fun x => fst (snd x) && snd (snd x)) (o_roster before) then 1 else 3
@@ -456,7 +491,8 @@ Fixpoint tag_walk (ops : list op) (before : obs) (rest : list obs) : N :=
       | _ => 0
       end in
     let later := tag_walk ops' after rest' in
-    if N.eqb here 7 then 7 else if N.eqb later 7 then 7
+    if N.eqb here 8 then 8 else if N.eqb later 8 then 8
+    else if N.eqb here 7 then 7 else if N.eqb later 7 then 7
     else if N.eqb here 6 then 6 else if N.eqb later 6 then 6
     else if N.eqb here 1 then 1 else if N.eqb later 1 then 1
     else if N.eqb here 2 then 2 else if N.eqb later 2 then 2
@@ -485,9 +521,9 @@ Definition no_tamper (ops : list op) : bool := forallb (fun o => negb (is_tamper
 Definition tame (o : op) : bool :=
   match o with
   | OCreate _ | OStart _ | ODestroy _ _ | ODie _ | OMesosState _ _ | OCleanup | OAnswer
-  | OCreateHeld _ _ | ORun _ | OLost _ => true
+  | OCreateHeld _ _ | ORun _ | OLost _ | OAnswerBare _ => true
   | ODestroyStuck _ | OStoreSet _ | OReconnect | OCrash _ _
-  | OLoseAnswers | OCrashLost _ _ | OReconnectLost => false
+  | OLoseAnswers | OCrashLost _ _ | OReconnectLost | OReconnectOmit _ => false
   end.
 
 (* the next reconciliation answer makes handleMessage send KILL to a task that is in the roster,
@@ -504,7 +540,8 @@ Fixpoint spares_owned (w : world) (ops : list op) : bool :=
   match ops with
   | [] => true
   | o :: r =>
-    (match o with OAnswer => negb (hits_owned w) | _ => true end) && spares_owned (fst (step w o)) r
+    (match o with OAnswer | OAnswerBare _ => negb (hits_owned w) | _ => true end)
+    && spares_owned (fst (step w o)) r
   end.
 
 (* every re-established connection finds the roster without a task owned by an environment
